@@ -151,3 +151,68 @@ class DevServer(object):
     def close(self):
         self.server.server_close()
 
+
+class _FakeSocket(object):
+    def __init__(self, data):
+        import io
+        self._in = io.BytesIO(data)
+        self.out = io.BytesIO()
+
+    def makefile(self, mode='rb', *a, **kw):
+        if 'r' in mode:
+            return self._in
+        out = self.out
+
+        class _W(object):
+            def write(self, b):
+                out.write(b)
+                return len(b)
+
+            def flush(self):
+                pass
+
+            def close(self):
+                pass
+            closed = False
+        return _W()
+
+    def sendall(self, b):
+        self.out.write(b)
+
+    def settimeout(self, t):
+        pass
+
+    def setsockopt(self, *a):
+        pass
+
+    def getsockname(self):
+        return ('127.0.0.1', 80)
+
+    def shutdown(self, *a):
+        pass
+
+    def close(self):
+        pass
+
+
+def dev_server_exchange(server, raw_request):
+    """Run the development server's request handler over the raw bytes of one connection (request line, headers,
+    body) against `server` (a DevServer) without a socket: returns (status code or None, header text, body bytes)."""
+    import io
+    from clastic._werkzeug_serving import WSGIRequestHandler
+    sock = _FakeSocket(raw_request)
+    old_err = sys.stderr
+    sys.stderr = io.StringIO()       # the handler logs every request there
+    try:
+        WSGIRequestHandler(sock, ('127.0.0.1', 50000), server.server)
+    finally:
+        sys.stderr = old_err
+    data = sock.out.getvalue()
+    head, _, body = data.partition(b'\r\n\r\n')
+    lines = head.split(b'\r\n')
+    try:
+        code = int(lines[0].split(b' ')[1])
+    except Exception:
+        code = None
+    return code, head.decode('latin-1'), body
+
